@@ -431,6 +431,20 @@ PROPS = {
 }
 
 
+# Multi-threaded stage (real threads, real clock, optional ThreadSanitizer build): which properties run it.
+MT_STAGE = {
+    "C01": dict(quick=dict(plain=1, tsan=0, args=["--threads", "8", "--pairs", "3", "--conns", "4", "--bytes", "100000", "--rounds", "1"]),
+                thorough=dict(plain=8, tsan=4, args=["--threads", "8", "--pairs", "4", "--conns", "6", "--bytes", "400000", "--rounds", "3"])),
+    "C02": dict(quick=dict(plain=1, tsan=0, args=["--threads", "8", "--pairs", "3", "--conns", "4", "--bytes", "100000", "--rounds", "1"]),
+                thorough=dict(plain=8, tsan=2, args=["--threads", "16", "--pairs", "6", "--conns", "6", "--bytes", "200000", "--rounds", "3"])),
+    "C19": dict(quick=dict(plain=1, tsan=0, args=["--threads", "8", "--pairs", "3", "--conns", "4", "--bytes", "100000", "--rounds", "1"]),
+                thorough=dict(plain=6, tsan=2, args=["--threads", "4", "--pairs", "4", "--conns", "6", "--bytes", "400000", "--rounds", "2"])),
+}
+MTSTRESS = os.path.join(HARNESS, "target", "release", "mtstress")
+TSAN_DIR = os.path.join(HARNESS, "target-tsan")
+MTSTRESS_TSAN = os.path.join(TSAN_DIR, "x86_64-unknown-linux-gnu", "release", "mtstress")
+
+
 def log(msg):
     print(msg, flush=True)
 
@@ -453,6 +467,95 @@ def build():
     finally:
         fcntl.flock(lock, fcntl.LOCK_UN)
         lock.close()
+
+
+def build_tsan():
+    """ThreadSanitizer build of mtstress (nightly, -Zbuild-std). Returns False if it cannot be built here."""
+    env = dict(ENV)
+    env["RUSTFLAGS"] = "--cfg ikatson_librqbit_utp_verif --cfg tokio_unstable -Zsanitizer=thread"
+    os.makedirs(TSAN_DIR, exist_ok=True)
+    lock = open(os.path.join(TSAN_DIR, ".build.lock"), "w")
+    fcntl.flock(lock, fcntl.LOCK_EX)
+    try:
+        t0 = time.time()
+        p = subprocess.run(["cargo", "+nightly", "build", "-Zbuild-std", "--target", "x86_64-unknown-linux-gnu", "--release",
+                            "--bin", "mtstress", "--target-dir", TSAN_DIR], cwd=HARNESS, env=env,
+                           stdout=subprocess.PIPE, stderr=subprocess.STDOUT, text=True)
+        if p.returncode != 0:
+            log(p.stdout[-3000:])
+            log("[build] ThreadSanitizer build failed; the TSan runs are skipped (recorded in the evidence)")
+            return False
+        log(f"[build] tsan ok in {time.time() - t0:.1f}s")
+        return True
+    finally:
+        fcntl.flock(lock, fcntl.LOCK_UN)
+        lock.close()
+
+
+def run_mt_stage(pid, tier, seed):
+    """Real-thread stage. Returns (violations, evidence dict)."""
+    cfg = MT_STAGE[pid][tier]
+    runs = []
+    viol = []
+    plan = [("plain", MTSTRESS, i) for i in range(cfg["plain"])]
+    tsan_ok = None
+    if cfg["tsan"] > 0:
+        tsan_ok = build_tsan()
+        if tsan_ok:
+            plan += [("tsan", MTSTRESS_TSAN, 1000 + i) for i in range(cfg["tsan"])]
+    for kind, exe, i in plan:
+        s = seed * 100003 + i
+        env = dict(ENV)
+        if kind == "tsan":
+            env["TSAN_OPTIONS"] = "halt_on_error=0 report_signal_unsafe=0 exitcode=66"
+        cmd = [exe, "--seed", str(s)] + cfg["args"]
+        try:
+            p = subprocess.run(cmd, cwd=ROOT, env=env, timeout=3600, stdout=subprocess.PIPE, stderr=subprocess.PIPE, text=True)
+        except subprocess.TimeoutExpired:
+            runs.append(dict(kind=kind, seed=s, verdict="inconclusive: wall-clock watchdog"))
+            continue
+        line = (p.stdout.strip().splitlines() or ["{}"])[-1]
+        try:
+            r = json.loads(line)
+        except Exception:
+            r = {"verdict": "broken", "problem": (p.stderr or "")[-500:]}
+        races = p.stderr.count("WARNING: ThreadSanitizer")
+        r["kind"] = kind
+        r["tsan_reports"] = races
+        runs.append(r)
+        bad = r.get("verdict") not in ("held",) or races > 0 or p.returncode not in (0,)
+        if r.get("verdict") == "broken":
+            continue
+        if bad:
+            os.makedirs(REPLAYS, exist_ok=True)
+            path = os.path.join(REPLAYS, f"{pid}-mtstress-{kind}-{s}.json")
+            with open(path, "w") as f:
+                json.dump({"property": pid, "command": " ".join(cmd), "result": r,
+                           "stderr_tail": (p.stderr or "")[-20000:]}, f, indent=1)
+            rule = "data-race" if races > 0 else "mt-" + str(r.get("verdict"))
+            sig = "ThreadSanitizer report" if races > 0 else str(r.get("problem") or r.get("verdict"))
+            # strip run-specific numbers from the signature
+            import re
+            sig = re.sub(r"[0-9]+", "N", sig)[:160]
+            viol.append({"property": pid, "rule": rule, "signature": sig, "detail": json.dumps(r)[:400], "replay": path, "count": 1})
+    ev = {
+        "runs": len(runs),
+        "plain_runs": sum(1 for r in runs if r.get("kind") == "plain"),
+        "tsan_runs": sum(1 for r in runs if r.get("kind") == "tsan"),
+        "tsan_build": {None: "not requested", True: "ok", False: "unavailable"}[tsan_ok],
+        "tsan_reports": sum(r.get("tsan_reports", 0) for r in runs),
+        "bytes_read_and_checked": sum(int(r.get("bytes_read_and_checked", 0)) for r in runs),
+        "connection_sides_completed": sum(int(r.get("connection_sides_completed", 0)) for r in runs),
+        "reads": sum(int(r.get("reads", 0)) for r in runs),
+        "writes": sum(int(r.get("writes", 0)) for r in runs),
+        "connection_task_polls": sum(int(r.get("connection_task_polls", 0)) for r in runs),
+        "max_worker_threads_seen_by_readers": max([int(r.get("worker_threads_seen_by_readers", 0)) for r in runs] or [0]),
+        "verdicts": sorted({str(r.get("verdict")) for r in runs}),
+        "args": cfg["args"],
+    }
+    log(f"[{pid} {tier}] mtstress: {ev['plain_runs']} plain + {ev['tsan_runs']} tsan runs, "
+        f"{ev['bytes_read_and_checked']} bytes checked across real threads, tsan_reports={ev['tsan_reports']}, verdicts={ev['verdicts']}")
+    return viol, ev
 
 
 def load_known():
@@ -532,6 +635,10 @@ def run_check(pid, tier):
     with open(out) as f:
         summary = json.load(f)
     os.remove(out)
+    mt_ev = None
+    if pid in MT_STAGE:
+        mt_viol, mt_ev = run_mt_stage(pid, tier, seed)
+        summary.setdefault("violations", []).extend(mt_viol)
 
     known = load_known()
     unlisted = []
@@ -566,8 +673,9 @@ def run_check(pid, tier):
         f"known={sum(d['count'] for d in known_seen.values())} wall={wall:.1f}s")
     log("[counters] " + " ".join(f"{k}={v}" for k, v in sorted(counters.items())))
 
+    extra = {"real_thread_stage": mt_ev} if mt_ev else None
     if unlisted:
-        write_evidence(pid, tier, seed, cfg, summary, wall, len(unlisted))
+        write_evidence(pid, tier, seed, cfg, summary, wall, len(unlisted), extra)
         seen = set()
         for v in unlisted:
             key = (v["property"], v["rule"], v["signature"])
@@ -579,14 +687,18 @@ def run_check(pid, tier):
         return 1
     incon = summary.get("inconclusive", [])
     if missing or summary.get("cases_run", 0) == 0 or summary.get("distinct_nontrivial", 0) < 2:
-        write_evidence(pid, tier, seed, cfg, summary, wall, 0)
+        write_evidence(pid, tier, seed, cfg, summary, wall, 0, extra)
         log(f"INCONCLUSIVE: required observations missing: {missing} (cases_run={summary.get('cases_run')})")
         return 2
     if any("determinism self-check failed" in s for s in incon):
         write_evidence(pid, tier, seed, cfg, summary, wall, 0)
         log("INCONCLUSIVE: " + incon[0][:500])
         return 2
-    write_evidence(pid, tier, seed, cfg, summary, wall, 0)
+    if mt_ev and (mt_ev["runs"] == 0 or "broken" in mt_ev["verdicts"] or any(v.startswith("inconclusive") for v in mt_ev["verdicts"])):
+        write_evidence(pid, tier, seed, cfg, summary, wall, 0, extra)
+        log(f"INCONCLUSIVE: the real-thread stage did not produce a verdict: {mt_ev['verdicts']}")
+        return 2
+    write_evidence(pid, tier, seed, cfg, summary, wall, 0, extra)
     log(f"OK property={pid} held on {summary.get('cases_run')} executions "
         f"({summary.get('distinct_nontrivial')} distinct non-trivial)")
     return 0
